@@ -379,6 +379,10 @@ def g_hostile(rng, tier, props):
     return GM.hostile_schedules(rng, props, pk, per_run=2, groups=GM.hostile_groups(rng))
 
 
+def g_sizes(rng, tier, props):
+    return GM.size_schedules(rng, props, n_of(tier, 60, 800), tier != "quick")
+
+
 def g_random_mem(rng, tier, props):
     """C09: duplicates of slices after consumption with older ids missing, tight budgets, stale unreliable fragments, long runs."""
     out = []
@@ -435,6 +439,9 @@ PLANS = {
     "C09": Plan("msg", "TraceRenetMon", ["C09"], [("random_mem", g_random_mem), ("random_mixed", g_random_mixed)],
                 mc=[mc_job("conn_mem", "MC_Conn", {"quick": ["MC_C09_q1.cfg", "MC_C09_q2.cfg", "MC_C09_q3.cfg"],
                                                     "thorough": ["MC_C09_q1.cfg", "MC_C09_q2.cfg", "MC_C09_q3.cfg", "MC_C09_t1.cfg"]}, ["C09"])],
+                level="model_checking", assumptions=MSG_ASSUME),
+    "C13": Plan("msg", "TraceRenetMon", ["C13"], [("sizes", g_sizes), ("random_mixed", g_random_mixed)],
+                mc=[mc_job("conn_sizes", "MC_Conn", {"quick": ["MC_C13_q1.cfg", "MC_C13_q2.cfg"], "thorough": ["MC_C13_q1.cfg", "MC_C13_q2.cfg"]}, ["C13"])],
                 level="model_checking", assumptions=MSG_ASSUME),
     "C14": Plan("msg", "TraceRenetMon", ["C14"], [("random_budget", g_random_budget)],
                 mc=[mc_job("conn_budget", "MC_Conn", {"quick": ["MC_C14_q1.cfg", "MC_C14_q2.cfg", "MC_C14_q3.cfg"],
